@@ -13,6 +13,20 @@ from oracle.cscheck import CsCheck
 from oracle.metamodel import MetaModel
 
 
+def _verify_generate_property(run: Run, stats: SmtStats) -> None:
+    """dotnet generate_property under its relational contract (nullable / null-ignoring / DataMember decisions, all property definitions)."""
+    from contracts import dotnet_property as dp
+    from lib.helpers_verify import verify_member_contract
+
+    verify_member_contract(
+        run,
+        stats,
+        dp,
+        "dotnet generate_property no longer emits a member that is nullable exactly when optional or null-admitting, null-ignoring exactly when optional and not null-admitting, and named by the metamodel property",
+        "the member facets of the item table (committed model) and the evolved models of C06 stand in",
+    )
+
+
 def main(argv: List[str]) -> int:
     run = Run("C08", "other", argv)
     mm = MetaModel.load(python_customizations=False)
@@ -31,6 +45,7 @@ def main(argv: List[str]) -> int:
     w_, i_, fi_, c_, l_ = gh.items_null_contract(gh.DOTNET_REL, "has_null_base_type")
     if fi_ is not None:
         verify_helper_items(run, stats, w_, i_, [(fi_, c_, l_)])
+    _verify_generate_property(run, stats)
     tmp = gen.scratch()
     n = fails = 0
     files = 0
@@ -57,12 +72,12 @@ def main(argv: List[str]) -> int:
         "there is no .NET toolchain in the sandbox: the observable is the text of the generated .cs files, parsed with a line/regex parser of the regular record/enum shape the plugin emits",
         "the mapped C# type is checked by shape (base types exact; ImmutableArray/ImmutableDictionary/OrType/tuple structure; references as identifiers) because class names of anonymous and renamed types are the plugin's own convention",
         "method strings are carried by LSPMethods for all methods and by the LSPRequest attribute for requests; a structure whose name clashes with a member may be emitted under an extended name (Command -> CommandAction)",
-        "whole-plugin postcondition evaluated on the committed model (finite, complete), not deduced; only lsp_to_base_types is proved for all base types",
+        "whole-plugin postcondition evaluated on the committed model (finite, complete), not deduced; lsp_to_base_types, has_null_base_type and generate_property's nullable / null-ignoring / DataMember decisions are proved for all inputs (generate_property against assumed contracts of its callees, listed below; its ImmutableArray / ImmutableDictionary case is known finding 17 and excluded from the contract)",
     )
     cov = stats.coverage()
     cov.update(
         {
-            "explanation": "postcondition of the dotnet plugin stated against the metamodel and evaluated on every generated record / enum / metadata attribute (complete for the committed model); helper lsp_to_base_types proved by SMT",
+            "explanation": "postcondition of the dotnet plugin stated against the metamodel and evaluated on every generated record / enum / metadata attribute (complete for the committed model); helpers lsp_to_base_types, has_null_base_type and the member decisions of generate_property proved by SMT",
             "obligations": stats.obligations + n,
             "discharged": stats.discharged + n - fails,
             "cs_files": files,
